@@ -14,6 +14,7 @@ import (
 	"encoding/json"
 	"fmt"
 	"hash/fnv"
+	"net"
 	"net/http"
 	"net/http/httptest"
 	"net/url"
@@ -127,13 +128,24 @@ var (
 
 func inertBackend() string {
 	inertBackendOnce.Do(func() {
-		srv := httptest.NewServer(http.HandlerFunc(func(w http.ResponseWriter, r *http.Request) {
+		handler := http.HandlerFunc(func(w http.ResponseWriter, r *http.Request) {
 			w.Header().Set("Content-Type", "text/plain")
 			w.Header().Set("X-Backend-Path", r.URL.Path)
+			w.Header().Set("X-Backend-Host", r.Host)
 			w.Header().Set("Cache-Control", "max-age=60")
 			w.WriteHeader(http.StatusOK)
 			w.Write([]byte("OK"))
-		}))
+		})
+		srv := httptest.NewUnstartedServer(handler)
+		// INERT_BACKEND_PORT: the check fixes the port for all its processes, because the port is part of the
+		// program text (a hash director hashes the rendered backend declaration)
+		if p := os.Getenv("INERT_BACKEND_PORT"); p != "" {
+			if l, err := net.Listen("tcp", "127.0.0.1:"+p); err == nil {
+				srv.Listener.Close()
+				srv.Listener = l
+			}
+		}
+		srv.Start()
 		u, _ := url.Parse(srv.URL)
 		inertBackendPort = u.Port()
 	})
@@ -196,7 +208,8 @@ func init() {
 				out = append(out, "l")
 			case token.COMMENT:
 				if inertIsAnnotation(t.Literal) {
-					out = append(out, "a"+inertHash(t.Literal))
+					// a carriage return at the end of a line comment is a line end, not text
+					out = append(out, "a"+inertHash(strings.TrimRight(t.Literal, "\r")))
 				} else {
 					out = append(out, "c")
 				}
